@@ -106,3 +106,64 @@ Section Hier.
       cbn [dep_bound] in *; rewrite Hbd; reflexivity.
   Qed.
 End Hier.
+
+(* ---- DependentType.__type_order__, Union.__type_order__, Intersection.__type_order__ as regenerated from the source ---- *)
+Lemma dep_order_src_agree : forall odep bo lt gt s1 s2, dep_order_src odep bo lt gt s1 s2 = dep_decide odep bo lt gt s1 s2.
+Proof. intros odep bo lt gt s1 s2. first [reflexivity | destruct odep, bo, lt, gt, s1, s2; reflexivity]. Qed.
+
+Lemma existsb_ext_order (f g : order -> bool) l : (forall x, f x = g x) -> existsb f l = existsb g l.
+Proof. intros H. induction l as [|x xs IH]; simpl; [reflexivity|]. now rewrite H, IH. Qed.
+
+Lemma union_order_src_agree : forall cmp,
+  union_order_src cmp = match cmp with [] => NONE | _ => if existsb ge_same cmp then MORE else LESS end.
+Proof.
+  intros cmp. first [reflexivity
+    | unfold union_order_src; destruct cmp as [|c cs]; [reflexivity|];
+      rewrite (existsb_ext_order _ ge_same) by (intros x; destruct x; reflexivity); reflexivity].
+Qed.
+
+Lemma inter_order_src_agree : forall cmp,
+  inter_order_src cmp = match cmp with [] => NONE | _ => if existsb le_same cmp then LESS else MORE end.
+Proof.
+  intros cmp. first [reflexivity
+    | unfold inter_order_src; destruct cmp as [|c cs]; [reflexivity|];
+      rewrite (existsb_ext_order _ le_same) by (intros x; destruct x; reflexivity); reflexivity].
+Qed.
+
+(* the model's hooks are these decisions with the calls (and their fuel) put back in *)
+Section Hooks.
+  Variable tord : ty -> ty -> option order.
+  Variable subck : ty -> ty -> option bool.
+
+  Theorem dep_order_decides : forall t o,
+    dep_order tord subck t o =
+      if is_dep o then
+        omap (fun bo => Some (dep_order_src true bo (dep_lt t o) (dep_lt o t) false false)) (tord (dep_bound t) (dep_bound o))
+      else
+        obind (subck o (dep_bound t)) (fun s1 =>
+          if s1 then Some (Some (dep_order_src false SAME false false true false))
+          else omap (fun s2 => Some (dep_order_src false SAME false false false s2)) (subck (dep_bound t) o)).
+  Proof.
+    intros t o. unfold dep_order. destruct (is_dep o).
+    - destruct (tord (dep_bound t) (dep_bound o)) as [bo|]; [|reflexivity].
+      cbn [omap]. rewrite dep_order_src_agree. destruct bo; reflexivity.
+    - destruct (subck o (dep_bound t)) as [[|]|]; cbn [obind]; rewrite ?dep_order_src_agree; try reflexivity.
+      destruct (subck (dep_bound t) o) as [[|]|]; cbn [omap]; rewrite ?dep_order_src_agree; reflexivity.
+  Qed.
+
+  Theorem union_hook_decides : forall ts o,
+    hook_order tord subck (Uni ts) o =
+      omap (fun rs => Some (union_order_src (filter (fun r => negb (order_eqb r NONE)) rs))) (omapM (fun x => tord x o) ts).
+  Proof.
+    intros ts o. cbn [hook_order]. destruct (omapM (fun x => tord x o) ts) as [rs|]; [|reflexivity].
+    cbn [omap]. now rewrite union_order_src_agree.
+  Qed.
+
+  Theorem inter_hook_decides : forall ts o,
+    hook_order tord subck (Int ts) o =
+      omap (fun rs => Some (inter_order_src (filter (fun r => negb (order_eqb r NONE)) rs))) (omapM (fun x => tord x o) ts).
+  Proof.
+    intros ts o. cbn [hook_order]. destruct (omapM (fun x => tord x o) ts) as [rs|]; [|reflexivity].
+    cbn [omap]. now rewrite inter_order_src_agree.
+  Qed.
+End Hooks.
